@@ -150,6 +150,9 @@ def generate():
     # of the const char * is QString::fromUtf8 as well)
     fb = inline_const_locals(fb, r'const (?:auto|QString|QtMsgType) (?P<name>\w+) = (?P<e>QString::fromUtf8\(lmsg\.category\(\)\)|lmsg\.type\(\));',
                              lambda m: 'lmsg.type()' if m.group('e') == 'lmsg.type()' else 'lmsg.category()')
+    # a guard that skips the rest of the loop body = the positive test around that rest
+    fb = re.sub(r'if \(!rule->matches\(lmsg\.category\(\), lmsg\.type\(\)\)\) continue; enabled = rule->enabled; \}',
+                'if (rule->matches(lmsg.category(), lmsg.type())) { enabled = rule->enabled; } }', fb)
     m = re.fullmatch(r' ?bool enabled = (true|false); for \(const auto &rule : std::as_const\(m_rules\)\) \{ '
                      r'if \(rule->matches\(lmsg\.category\(\), lmsg\.type\(\)\)\) \{ (.*?) \} \} return enabled; ?', fb)
     mback = re.fullmatch(r' ?for \(auto it = m_rules\.crbegin\(\), end = m_rules\.crend\(\); it != end; \+\+it\) \{ '
